@@ -39,13 +39,16 @@ def run(ck):
                "each under seeded random schedules and preemption-bounded DFS of the real Transport on the scripted engine, in "
                "virtual time; non-trivial = a connectSync failed or a close command / global close occurred")
     tla_path = os.path.join(SPECDIR, "SyncConnect.tla")
-    jobs = [("c2", "{c1, c2}", True), ("c2_nomark", "{c1, c2}", False)] + ([("c3", "{c1, c2, c3}", True)] if thorough else [])
+    # mark = (MarkAbandoned, MarkAbandonedOnTeardown): the code as repaired is (True, True); either flag FALSE must violate
+    jobs = [("c2", "{c1, c2}", (True, True)), ("c2_nomark", "{c1, c2}", (False, True)), ("c2_nomark_td", "{c1, c2}", (True, False))] + (
+        [("c3", "{c1, c2, c3}", (True, True))] if thorough else [])
 
     def go(job):
         name, callers, mark = job
         cfg = os.path.join(ck.work, name + ".cfg")
-        vf.write_cfg(cfg, constants={"Callers": callers, "MarkAbandoned": mark}, invariants=["GlobalOnlyOwned", "OkOnlyLive"])
-        return job, vf.run_tlc(tla_path, cfg, tag="C04_" + name, workers=4, coverage=mark, timeout=900)
+        vf.write_cfg(cfg, constants={"Callers": callers, "MarkAbandoned": mark[0], "MarkAbandonedOnTeardown": mark[1], "WithTeardown": True},
+                     invariants=["GlobalOnlyOwned", "OkOnlyLive"])
+        return job, vf.run_tlc(tla_path, cfg, tag="C04_" + name, workers=4, coverage=all(mark), timeout=900)
     with cf.ThreadPoolExecutor(max_workers=3) as ex:
         res = list(ex.map(go, jobs))
     for (name, callers, mark), r in res:
@@ -53,9 +56,10 @@ def run(ck):
             raise vf.Infra("TLC failed on SyncConnect %s: %s" % (name, r.error))
         ck.states += r.distinct
         ck.transitions += r.generated
-        if not mark:
+        if not all(mark):
             if r.violated != "GlobalOnlyOwned":
-                raise vf.Infra("self-test: SyncConnect.tla with MarkAbandoned=FALSE should violate GlobalOnlyOwned, got %r" % r.violated)
+                raise vf.Infra("self-test: SyncConnect.tla with MarkAbandoned%s=FALSE should violate GlobalOnlyOwned, got %r" % (
+                    "" if not mark[0] else "OnTeardown", r.violated))
             continue
         for a, (tk, gn) in r.coverage.items():
             ck.cov[a] = ck.cov.get(a, 0) + gn
@@ -63,7 +67,7 @@ def run(ck):
         if r.violated:
             rp = ck.save_replay("impl_" + name, {"tlc.out": r.out})
             ck.violation("SyncConnect.tla (the design the code follows) violates %s" % r.violated, rp)
-    for a in ["Register", "WakeDone", "TimeoutUnlock", "IssueClose", "ReturnTimeout", "IoOnConnect", "IoOnClose"]:
+    for a in ["Register", "WakeDone", "TimeoutUnlock", "IssueClose", "ReturnTimeout", "IoOnConnect", "IoOnClose", "Fence", "ReturnShutdown"]:
         if ck.cov.get(a, 0) == 0:
             raise vf.Infra("self-test: SyncConnect action %s never taken" % a)
     lines = []
@@ -76,6 +80,9 @@ def run(ck):
     tc.run_cases(ck, lines, "random", nontrivial)
     for j, p in enumerate(PROGS[:2] if not thorough else PROGS):
         tc.run_dfs(ck, p, 2, 40000 if thorough else 2500, "dfs%d" % j, nontrivial)
+    # the counterexample of MarkAbandonedOnTeardown=FALSE (Register, Fence, ReturnShutdown, IoOnConnect, IoOnClose) lies within two
+    # preemptions of this program: destruction while one connectSync is parked and its connect completes late
+    tc.run_dfs(ck, "8 | io=connected:1 ; main=destroy ; a=csync:100000", 2, 20000 if thorough else 2000, "dfs_td", nontrivial)
     real_engine(ck, thorough)
 
 
